@@ -15,6 +15,10 @@ EXTRA = [  # calls whose internal decisions iterate sets (anchors of C16): ties 
     ("set_at", "[n], (i k) (j l), (j l) (i k) -> [n]", [np.zeros(7, dtype="int64"), np.array([[0, 2, 1, 0], [2, 2, 0, 1], [1, 0, 0, 2], [2, 1, 1, 0]]), np.arange(1, 17).reshape(4, 4)], {"i": 2, "j": 2}),
     ("set_at", "[n], (i k) (j l) (p q), (p q) (j l) (i k) -> [n]", [np.zeros(3, dtype="int64"), np.arange(64).reshape(4, 4, 4) % 3, np.arange(1, 65).reshape(4, 4, 4)], {"i": 2, "j": 2, "p": 2}),
     ("add_at", "[n], (i k) (j l), (j l) (i k) -> [n]", [np.zeros(7), np.array([[0, 2, 1, 0], [2, 2, 0, 1], [1, 0, 0, 2], [2, 1, 1, 0]]), np.arange(1.0, 17.0).reshape(4, 4)], {"i": 2, "j": 2}),
+    # overlapping common subexpressions ('a b', 'b c', 'a b c'): which one is eliminated must not depend on the hash seed (fixed defect)
+    ("id", "(a b c d) -> (a b c d e)", [np.arange(24)], {"d": 2, "e": 3}),
+    ("id", "(a b c d) (e f g) -> (e f g) (a b c d)", [np.arange(48).reshape(24, 2)], {"d": 2, "g": 2}),
+    ("sum", "(a b c) [d] -> (a b c)", [np.arange(24.0).reshape(12, 2)], {}),
     ("add", "a b, b a", [np.ones((2, 3)), np.ones((3, 2))], {}),
     ("add", "a b, b a", [np.ones((3, 3)), np.arange(9.0).reshape(3, 3)], {}),
     ("add", "a b, (a b)", [np.ones((2, 3)), np.ones(6)], {}),
